@@ -287,9 +287,34 @@ def gen_cond_case(rng: random.Random, max_waiters: int) -> dict:
     return {"kind": "cond", "cfg": {"fast": rng.random() < 0.3}, "scripts": scripts}
 
 
-def directed_cond_cases(rng: random.Random, max_waiters: int, count: int) -> list[dict]:
+WHENS = ["before", "same-cancel-first", "same-notify-first", "after-held", "after-released", "none"]
+
+
+def directed_case(nw: int, n: int, j: int, kind: str, when: str, fast: bool, tail: bool) -> dict:
     """`nw` waiters queue up, one notifier issues notify(n) and cancels waiter `j` (scope or
     native) at a chosen moment relative to the notification that selects it"""
+    waiters = [[["acquire"], ["wait"], ["release"]] for _ in range(nw)]
+    pad = [["yield"]] * (2 * nw + 2)
+    body: list[list]
+    if when == "before":
+        body = [[kind, j], ["yield"], ["yield"], ["acquire"], ["notify", n], ["release"]]
+    elif when == "same-cancel-first":
+        body = [["acquire"], [kind, j], ["notify", n], ["release"]]
+    elif when == "same-notify-first":
+        body = [["acquire"], ["notify", n], [kind, j], ["release"]]
+    elif when == "after-held":
+        body = [["acquire"], ["notify", n], ["yield"], [kind, j], ["release"]]
+    elif when == "after-released":
+        body = [["acquire"], ["notify", n], ["release"], ["yield"], [kind, j]]
+    else:
+        body = [["acquire"], ["notify", n], ["release"]]
+    # enough further notifications for everybody still asleep
+    rest = [["yield"], ["yield"], ["acquire"], ["notify_all"], ["release"]] if tail else []
+    return {"kind": "cond", "cfg": {"fast": fast}, "scripts": waiters + [pad + body + rest],
+            "directed": [nw, n, j, kind, when]}
+
+
+def directed_cond_cases(rng: random.Random, max_waiters: int, count: int) -> list[dict]:
     out = []
     for _ in range(count):
         nw = rng.randint(1, max_waiters)
@@ -299,31 +324,21 @@ def directed_cond_cases(rng: random.Random, max_waiters: int, count: int) -> lis
         else:
             n = rng.randint(0, nw + 1)
             j = rng.randrange(nw)
-        kind = rng.choice(["cancel", "ncancel"])
-        when = rng.choice(["before", "same-cancel-first", "same-notify-first", "after-held",
-                           "after-released", "none"])
-        waiters = [[["acquire"], ["wait"], ["release"]] for _ in range(nw)]
-        pad = [["yield"]] * (2 * nw + 2)
-        body: list[list]
-        if when == "before":
-            body = [[kind, j], ["yield"], ["yield"], ["acquire"], ["notify", n], ["release"]]
-        elif when == "same-cancel-first":
-            body = [["acquire"], [kind, j], ["notify", n], ["release"]]
-        elif when == "same-notify-first":
-            body = [["acquire"], ["notify", n], [kind, j], ["release"]]
-        elif when == "after-held":
-            body = [["acquire"], ["notify", n], ["yield"], [kind, j], ["release"]]
-        elif when == "after-released":
-            body = [["acquire"], ["notify", n], ["release"], ["yield"], [kind, j]]
-        else:
-            body = [["acquire"], ["notify", n], ["release"]]
-        tail: list[list] = []
-        if rng.random() < 0.7:  # enough further notifications for everybody still asleep
-            tail = [["yield"], ["yield"], ["acquire"], ["notify_all"], ["release"]]
-        out.append({"kind": "cond", "cfg": {"fast": rng.random() < 0.3},
-                    "scripts": waiters + [pad + body + tail],
-                    "directed": [nw, n, j, kind, when]})
+        out.append(directed_case(nw, n, j, rng.choice(["cancel", "ncancel"]), rng.choice(WHENS),
+                                 rng.random() < 0.3, rng.random() < 0.7))
     return out
+
+
+def enum_directed(max_waiters: int):
+    """every (number of waiters, n, cancelled waiter, kind of cancellation, timing) (thorough)"""
+    for nw in range(1, max_waiters + 1):
+        for n in range(0, nw + 2):
+            for j in range(nw):
+                for kind in ("cancel", "ncancel"):
+                    for when in WHENS:
+                        for fast in (False, True):
+                            for tail in (False, True):
+                                yield directed_case(nw, n, j, kind, when, fast, tail)
 
 
 # --------------------------------------------------------------------------- oracle
@@ -341,6 +356,7 @@ class QueueAutomaton:
         self.w: dict[int, dict] = {}  # tasks inside an accepted wait()
         self.expect: dict[int, str] = {}
         self.held: dict[int, bool] = {}
+        self.ghost = {"issued": 0, "direct": 0, "passed": 0, "dropped": 0}
         self.stats = {"consumed": 0, "passed_on": 0, "dropped_on_empty": 0, "removed_unnotified": 0,
                       "native_cancel_in_reacquire": 0, "refused": 0, "notified": 0,
                       "cancel_then_notify_same_cycle": 0, "notify_then_cancel_same_cycle": 0}
@@ -348,6 +364,8 @@ class QueueAutomaton:
     def select(self, u: int, how: str) -> None:
         self.w[u]["notified"] = True
         self.w[u]["how"] = how
+        if how == "direct":
+            self.ghost["issued"] += 1
         self.stats["notified"] += 1
         if self.w[u]["cancel_seen"]:
             self.stats["cancel_then_notify_same_cycle"] += 1
@@ -394,6 +412,7 @@ class QueueAutomaton:
                         self.stats["passed_on"] += 1
                     else:
                         self.stats["dropped_on_empty"] += 1
+                        self.ghost["dropped"] += 1
                 else:
                     if t in self.queue:
                         self.queue.remove(t)
@@ -403,6 +422,7 @@ class QueueAutomaton:
                 if not st["notified"]:
                     return f"spurious wake-up: task {t} resumed from wait() without notification or cancellation"
                 self.stats["consumed"] += 1
+                self.ghost["direct" if st["how"] == "direct" else "passed"] += 1
             return None
         if kind == "op":
             k = op[0]
@@ -491,13 +511,21 @@ class QueueAutomaton:
         return None
 
 
-def cond_oracle(b: Bench) -> tuple[str | None, dict]:
+    def ghost_line(self) -> str:
+        """the automaton's notification accounting, in the format of the model's `ghost` reply"""
+        pending = sum(1 for st in self.w.values() if st["notified"] and not st["resumed"])
+        g = self.ghost
+        return (f"issued={g['issued']} direct={g['direct']} passed={g['passed']} dropped={g['dropped']} "
+                f"pending={pending}")
+
+
+def cond_oracle(b: Bench) -> tuple[str | None, dict, str | None]:
     qa = QueueAutomaton()
     for kind, t, op, out in b.events:
         bad = qa.feed(kind, t, op, out)
         if bad:
-            return bad, qa.stats
-    return qa.finish(b.deadlock), qa.stats
+            return bad, qa.stats, None
+    return qa.finish(b.deadlock), qa.stats, qa.ghost_line()
 
 
 # --------------------------------------------------------------------------- run
@@ -514,7 +542,7 @@ def nontrivial_key(case: dict, b: Bench) -> tuple | None:
         refused = any(o == "runtimeerror" for _, o in b.lines)
         ok = waited or refused
     if ok:
-        return (case["kind"],) + tuple((r, o) for r, o in b.lines if not r.startswith("obs"))
+        return (case["kind"],) + tuple((r, o) for r, o in b.lines if not r.startswith(("obs", "ghost")))
     return None
 
 
@@ -523,23 +551,37 @@ ADAPTERS = {"event": EventAdapter, "cond": CondAdapter}
 
 def run_cases(cases: list[dict], res: Result) -> None:
     benches: list[Bench] = []
+    verdicts: list[str | None] = []
     per_model: dict[str, list[str]] = {"event": [], "cond": []}
+    q_st = res.stats.setdefault("condition_automaton", {})
     for case in cases:
-        b = Bench11(ADAPTERS[case["kind"]](), case).run()
+        kind = case["kind"]
+        b = Bench11(ADAPTERS[kind](), case).run()
         benches.append(b)
-        per_model[case["kind"]] += [r for r, _ in b.lines]
+        bad: str | None = None
+        if not b.error:
+            if kind == "event":
+                bad = event_oracle(b)
+            else:
+                bad, qs, ghost = cond_oracle(b)
+                for k, v in qs.items():
+                    q_st[k] = q_st.get(k, 0) + v
+                if ghost is not None:
+                    # the automaton's notification accounting must equal the model's ghost counters
+                    b.lines.append(["ghost", ghost])
+        verdicts.append(bad)
+        per_model[kind] += [r for r, _ in b.lines]
     replies = {m: run_model(m, ls) for m, ls in per_model.items()}
     pos = {"event": 0, "cond": 0}
     out_st = res.stats.setdefault("outcomes", {})
-    q_st = res.stats.setdefault("condition_automaton", {})
-    for case, b in zip(cases, benches):
+    for case, b, bad in zip(cases, benches, verdicts):
         kind = case["kind"]
         rep = replies[kind][pos[kind]: pos[kind] + len(b.lines)]
         pos[kind] += len(b.lines)
         res.evaluations += 1
         res.stats[f"cases_{kind}"] = res.stats.get(f"cases_{kind}", 0) + 1
         for r, o in b.lines:
-            if r.startswith("obs"):
+            if r.startswith(("obs", "ghost")):
                 continue
             k = f"{kind}.{r.split()[0]}:{o.split()[0]}"
             out_st[k] = out_st.get(k, 0) + 1
@@ -548,15 +590,9 @@ def run_cases(cases: list[dict], res: Result) -> None:
         if b.error:
             res.violations.append(Violation(case, b.error, "harness:" + b.error[:30]))
             continue
-        if kind == "event":
-            bad = event_oracle(b)
-        else:
-            bad, qs = cond_oracle(b)
-            for k, v in qs.items():
-                q_st[k] = q_st.get(k, 0) + v
-            if "directed" in case:
-                d = res.stats.setdefault("directed_timing", {})
-                d[case["directed"][4]] = d.get(case["directed"][4], 0) + 1
+        if "directed" in case:
+            d = res.stats.setdefault("directed_timing", {})
+            d[case["directed"][4]] = d.get(case["directed"][4], 0) + 1
         if bad:
             res.violations.append(Violation(case, bad, "C11:" + kind + ":" + bad.split(":")[0][:60]))
         d = compare(b.lines, rep)
@@ -583,9 +619,9 @@ def run(ctx: Ctx) -> Result:
     corpus = [c for c in load_corpus("C11")]
     cases: list[dict] = []
     mw = 4 if ctx.tier == "quick" else 6
-    n_cond = ctx.n(900, 12000)
-    n_dir = ctx.n(600, 6000)
-    n_ev = ctx.n(500, 6000)
+    n_cond = ctx.n(900, 36000)
+    n_dir = ctx.n(600, 12000)
+    n_ev = ctx.n(500, 12000)
     for _ in range(n_cond):
         cases.append(gen_cond_case(ctx.rng, mw))
     cases += directed_cond_cases(ctx.rng, mw, n_dir)
@@ -593,6 +629,9 @@ def run(ctx: Ctx) -> Result:
     for _ in range(n_ev):
         cases.append(gen_event_case(ctx.rng, mt, mo))
     ctx.rng.shuffle(cases)
+    if ctx.tier == "thorough" and ctx.budget == 1.0:
+        cases += list(enum_directed(mw))
+        res.stats["enumerated_directed_timings"] = True
     cases = corpus + cases
     for i in range(0, len(cases), 400):
         run_cases(cases[i: i + 400], res)
